@@ -241,6 +241,11 @@ func genDecoders(c *Ctx) {
 		{"prealloc-dagcbor", []int{1, 4}},
 		{"prealloc-ctn", []int{1, 4}},
 		{"cbornest-deep", []int{3000000}},
+		// matching cost must stay polynomial in the nesting depth, whatever the data resolves to
+		{"matchnot-missing", []int{16, 32, 64, 4000}},
+		{"matchnot-optional", []int{64, 4000}},
+		{"matchnot-present", []int{64, 4000}},
+		{"matchmix-missing", []int{64, 2000}},
 	}
 	for _, fam := range fams {
 		for _, sz := range fam.sizes {
@@ -272,7 +277,7 @@ func genDecoders(c *Ctx) {
 						cls = "oom"
 					}
 				}
-			case <-time.After(90 * time.Second):
+			case <-time.After(map[bool]time.Duration{true: 20 * time.Second, false: 90 * time.Second}[strings.HasPrefix(fam.name, "match")]):
 				_ = cmd.Process.Kill()
 				cls = "timeout"
 			}
@@ -324,6 +329,23 @@ func decodersChild(c *Ctx) {
 			f = func() error { _, err := token.FromDagCbor(input); return err }
 		default:
 			f = func() error { _, err := container.FromCbor(input); return err }
+		}
+	case "matchnot-missing", "matchnot-optional", "matchnot-present", "matchmix-missing":
+		sel := map[string]string{"matchnot-missing": ".zz", "matchnot-optional": ".zz?", "matchnot-present": ".x", "matchmix-missing": ".list[9]"}[fam]
+		open, close := `["not",`, "]"
+		if fam == "matchmix-missing" {
+			open, close = `["and",[["or",[["not",`, "]]]]]"
+		}
+		input = []byte("[" + strings.Repeat(open, sz) + `["==","` + sel + `",1]` + strings.Repeat(close, sz) + "]")
+		f = func() error {
+			pol, err := policy.FromDagJson(string(input))
+			if err != nil {
+				return err
+			}
+			d := J(`{"x":1,"list":[1,2,3]}`)
+			pol.Match(d)
+			pol.PartialMatch(d)
+			return nil
 		}
 	default:
 		fmt.Println("RESULT unknown 0 0")
